@@ -113,6 +113,29 @@ def history_trace(rng, cfg, wd, nhits, maxgap, gaps=None):
         sysm.close()
 
 
+def window_args_leg(c, wd):
+    """The time window given the documented way - tracepoint arguments window_start / window_end: a window that is over
+    (an end of 1, in whatever unit), or has not begun (a start far in the future, in whatever unit), admits no collection."""
+    from .. import rig as R
+    for name, args in (('over', {'window_end': '1'}), ('not begun', {'window_start': str(10 ** 30)})):
+        mod, path, marks = R.write_host(wd, L.HOST_SRC)
+        rg = R.Rig()
+        try:
+            a = {'fire_count': '-1', 'fire_period': '0'}
+            a.update(args)
+            rg.install([{'id': 'tp-window', 'path': path.rsplit('/', 1)[-1], 'line': marks['hit'], 'args': a}])
+            rg.run(mod.hit, 0, only_file=path)
+            n = len(rg.snapshots())
+        finally:
+            rg.close()
+            sys.modules.pop(mod.__name__, None)
+        c.traces_validated += 1
+        c.note_case(key=('window-args', name), nontrivial=True)
+        if n:
+            c.violation('a tracepoint whose time window (arguments %s) is %s collected %d snapshot(s)' % (args, name, n),
+                        None, signature={'window': 'args-not-applied'})
+
+
 def gate_schedules(c, cfgs, wd, line_level, max_preemptions, max_runs, nthreads=2):
     """Concurrent hits under the cooperative scheduler; every schedule's trace goes to TLC."""
     traces = []
@@ -266,6 +289,7 @@ def run(c):
         traces.append(tr)
         meta.append({'cfg': cfg, 'errors': esc, 'hits': 7, 'kind': 'unparsable-text-shared'})
     validate(c, traces, meta, 'history')
+    window_args_leg(c, wd)
     # concurrent schedules
     traces, meta = gate_schedules(c, RACE_CFGS, wd, line_level=False, max_preemptions=8, max_runs=None)
     validate(c, traces, meta, 'gate-schedule')
